@@ -559,6 +559,81 @@ def run_round(rep, exe, cases, tagname):
     metas = [dict(fmt=c[1]["fmt"], field="sequence", desc="%s/%s" % (c[1]["opts"], c[1]["flt"])) for c in cases]
     return C10.run_resuming(rep, tagname, exe, lines, metas, env=C10.harness_env(), pid="C02")
 
+# ----------------------------------------------------------------------------- sparse files through the pax writer
+from vlib import vparse as _vp
+def _fnv(data):
+    h = 1469598103934665603
+    for b in data:
+        h = ((h ^ b) * 1099511628211) & 0xFFFFFFFFFFFFFFFF
+    return h
+
+def sparse_roundtrip(rep, quick):
+    """Sparse files are stored by the pax writers as a text map followed by the data blocks.  Written with the real
+    writer, read back with the real reader, compared with what was written (holes read back as zeros), with a plain
+    entry behind the sparse one.  The map texts are chosen around the 512-byte record borders (the map is padded to a
+    record), block offsets and lengths around digit-count borders."""
+    import readcore
+    mk = vlib.compile_harness("mkArchive", "asan")
+    rd = vlib.compile_harness("readAll", "asan")
+    def map_len(blocks, size):
+        bl = list(blocks)
+        if not bl or bl[-1][0] + bl[-1][1] < size:
+            bl.append((size, 0))
+        return len("%d\n" % len(bl)) + sum(len("%d\n%d\n" % b) for b in bl)
+    cands = []
+    for step, ln in ((8192, 1), (8192, 12), (10000, 123), (70000, 1), (512, 7), (100000, 4096)):
+        for n in range(1, 260):
+            blocks = [(step * i + (0 if step > ln else 0), ln) for i in range(n)] if step > ln else None
+            if not blocks:
+                continue
+            size = blocks[-1][0] + ln + 4097
+            cands.append((map_len(blocks, size), blocks, size))
+    pick = [c for c in cands if c[0] % 512 in (0, 1, 511)]
+    r = vlib.rng(rep.seed, "C02-sparse")
+    pick = pick[: (24 if quick else 400)] + r.sample(cands, 6 if quick else 60)
+    specs, metas = [], []
+    AE_IFREG = 0o100000
+    for mlen, blocks, size in pick:
+        if size > (3 << 20):
+            continue
+        body = bytearray(size)
+        for off, ln in blocks:
+            for j in range(ln):
+                body[off + j] = (off + j * 7 + 1) & 0xff or 1
+        for fmt in ("pax", "paxr"):
+            ents = [["sp/holes", AE_IFREG, 0o644, 1, 2, 1000, bytes(body), b"", b"", 0, [list(b) for b in blocks]],
+                    ["sp/after.txt", AE_IFREG, 0o600, 1, 2, 1001, b"after the sparse file\n", b"", b"", 0, []]]
+            specs.append(vfmt([fmt, "", "", 512, ents]))
+            metas.append((fmt, mlen, len(blocks), size, _fnv(bytes(body))))
+    rc, lines, err = vlib.run_exe(mk, vlib.write_cases(specs, "c02-sparse-mk.cases"), timeout=900)
+    rcases, rmeta = [], []
+    for m, l in zip(metas, lines):
+        v = _vp(l)
+        if v[0] < -20 or v[-2] < -20:
+            rep.violation("C02:%s:sparse:write-failed" % m[0], "writing a sparse file (map of %d bytes, %d blocks) failed with status %s" % (m[1], m[2], v[-2]),
+                          dict(format=m[0], map_bytes=m[1], blocks=m[2]), found_input=True)
+            continue
+        rcases.append(readcore.read_case(v[-1], source=(1,), consume=(0, 65536, 0), noraw=1)); rmeta.append(m)
+    rc, rl, err = readcore.run_readall(rd, rcases, timeout=900)
+    n = 0
+    for m, c, l in zip(rmeta, rcases, rl):
+        n += 1
+        d = _vp(l)
+        ents = [e for e in d[:-4] if isinstance(e, list)]
+        fmt, mlen, nb, size, h = m
+        what = None
+        if len(ents) != 2 or d[-4] != 1:
+            what = "read back %d entries (final status %s), wrote 2" % (len(ents), d[-4])
+        elif ents[0][3] not in (size, [size]) or ents[0][-2] != size or ents[0][-1] != h or ents[0][-3] != 0:
+            what = "sparse entry reads back with size %s, %s data bytes (status %s), hash %s; wrote %d bytes, hash %s" % (ents[0][3], ents[0][-2], ents[0][-3], ents[0][-1], size, h)
+        elif ents[1][1] != b"sp/after.txt" or ents[1][-2] != 22:
+            what = "the entry behind the sparse file reads back as %r with %s bytes" % (ents[1][1], ents[1][-2])
+        if what:
+            rep.violation("C02:%s:sparse:map-%s" % (fmt, "record-multiple" if mlen % 512 == 0 else "other"),
+                          "%s, sparse map text of %d bytes (%d blocks): %s" % (fmt, mlen, nb, what),
+                          dict(format=fmt, map_bytes=mlen, blocks=nb, case=c[:200000], cmd="harness mkArchive then readAll"), found_input=True)
+    return n
+
 def run(rep):
     C10.big_stack()
     pr = vlib.proof_part(rep, "C02", translators=["gen_defines", "gen_fmt"])
@@ -618,6 +693,10 @@ def run(rep):
                       dict(correspondence="fmt", broken="correspondence fmt (whole archives)", case=line, impl=str(pi[:3]), model=str(mv[:3])),
                       found_input=False)
     parse_correspondence(rep, runner, parse_todo, stats)
+    try:
+        stats["sparse_roundtrips"] = sparse_roundtrip(rep, rep.tier == "quick")
+    except (vlib.BuildError, Exception) as ex:
+        rep.violation("C02:sparse:could-not-run", "sparse round trips could not be run: %r" % (ex,), dict(error=repr(ex)), found_input=False)
     if round2:
         il2 = run_round(rep, exe, round2, "fmt-rt2")
         for k, (line2, meta) in enumerate(round2):
@@ -646,7 +725,7 @@ def run(rep):
         fixed_point_rounds=stats["round2"], oracle_keys=sorted(stats["keys"].keys()))
     rep.assumptions += [
         "representable ranges per format are the table FORMATS in props/C02.py (read off the writers and the C10 results); values outside are C10's subject",
-        "sparse maps and ACLs are not generated (C06/C15 cover them); xattrs only for pax; file flags not generated",
+        "ACLs are not generated (C15 covers them); sparse files only through the pax writers (sparse_roundtrip); xattrs only for pax; file flags not generated",
         "shar/shardump have no reader and are not round-tripped; raw is checked on its single body",
         "filters lrzip/lzop/grzip/lzip need external programs or are not built in and are not used"]
     vlib.proof_verdict(rep, "C02", pr)
